@@ -38,10 +38,16 @@ def run(ctx):
     chains = [c for c in au.calls(jv) if ast.unparse(c.func).endswith(
         '.derivative_chain')]
     ctx.anchor(len(chains) == 3, 'three derivative_chain calls in jvec')
+    idxnames = set()
+    for c in chains:
+        ix = c.args[0].slice.elts[0] if isinstance(
+            c.args[0], ast.Subscript) and isinstance(
+                c.args[0].slice, ast.Tuple) else None
+        if isinstance(ix, ast.Name):
+            idxnames.add(ix.id)
+    nname = sorted(idxnames)[0] if idxnames else 'n'
     nassign = [n for n in ast.walk(jv) if isinstance(n, ast.Assign) and
-               isinstance(n.value, ast.IfExp) and isinstance(
-                   n.targets[0], ast.Name)]
-    nname = nassign[0].targets[0].id if len(nassign) == 1 else 'n'
+               ast.unparse(n.targets[0]) == nname]
     for case, (hy, hz) in CASES.items():
         env = {'self.model.case': case}
         got = []
